@@ -33,7 +33,7 @@ func OpenDB(opts badger.Options) (*badger.DB, error) {
 	// a write batch may be 15% of a table, so histories with multi-megabyte log entries ask for bigger ones: TableSize);
 	// from the server's own options it takes what decides whether a write is ACCEPTED: the largest value it admits
 	// (ValueLogFileSize) and read-only mode. Everything else about the server's options concerns files that do not exist here.
-	mem := badger.DefaultOptions("").WithInMemory(true).WithLogger(nil).WithMaxTableSize(TableSize).WithNumMemtables(2)
+	mem := badger.DefaultOptions("").WithInMemory(true).WithEventLogging(false).WithLogger(nil).WithMaxTableSize(TableSize).WithNumMemtables(2)
 	mem = mem.WithValueLogFileSize(opts.ValueLogFileSize).WithReadOnly(opts.ReadOnly)
 	opts = mem
 	db, err := badger.Open(opts)
